@@ -61,8 +61,13 @@ if 'markers' in q:
             mk = Marker(m)
             row = []
             for extra in q.get('extras', ['']):
-                e = dict(env); e['extra'] = extra
-                try: row.append('1' if mk.evaluate(e) else '0')
+                # pip: any(marker.evaluate({"extra": e}) for e in (requested extras or ("",)))
+                try:
+                    ok = False
+                    for one in extra.split(','):
+                        e = dict(env); e['extra'] = one
+                        if mk.evaluate(e): ok = True
+                    row.append('1' if ok else '0')
                 except Exception as ex: row.append('x')
             res.append(''.join(row))
         except InvalidMarker:
